@@ -147,10 +147,18 @@ def compiled_renorm(case, proj, method, byslot, cur, new, ref, names_by_row, nel
         kind = "asan" if "AddressSanitizer" in err else "ubsan" if "runtime error" in err else "bounds" if "VT_BOUNDS" in err else f"exit{rc}"
         failures.append((f"renorm/compiled/sanitizer/{kind}", f"{method}: {err[-400:]}"))
         return
-    line = next((l for l in out.splitlines() if l.startswith("AB")), None)
-    if line is None:
+    line = next((l for l in out.splitlines() if l.startswith("AB ")), None)
+    line2 = next((l for l in out.splitlines() if l.startswith("AB2 ")), None)
+    if line is None or line2 is None:
         raise RuntimeError(f"renorm driver gave no result: {out[-200:]} {err[-200:]}")
     got = [float.fromhex(x) for x in line.split()[1:]]
+    got2 = [float.fromhex(x) for x in line2.split()[1:]]
+    # renormalising the same vector again with the same object gives the same result (bit for bit: same arithmetic)
+    bad = [s for s in byslot if not (got[s] == got2[s] or (got[s] != got[s] and got2[s] != got2[s]))]
+    if bad:
+        s_ = bad[0]
+        failures.append((f"renorm/second-call-differs/{method}", f"{method}: Renorm of the same vector by the same object gives ab[{s_}] = {got2[s_]!r} the second time, {got[s_]!r} the first time"))
+        return
     # the double-precision LU is only comparable with the exact solve when the element system is well scaled
     scale = max(abs(float(new[s]) / float(cur[s])) for s in byslot if cur[s] != 0)
     small = min(abs(float(new[s]) / float(cur[s])) for s in byslot if cur[s] != 0)
